@@ -54,7 +54,7 @@ def main():
             na.append({"property_id": pid, "reason": NOT_YET})
     man = {
         "version": 1,
-        "setup_cmd": "python3 tools/translate.py && (cd lean && lake build Pds pds_model " + " ".join("Pds.Props." + p for p in sorted(ENABLED)) + ") && (cd harness && cargo build --release --offline)",
+        "setup_cmd": "python3 tools/translate.py && (cd lean && lake build Pds pds_model " + " ".join("Pds.Props." + p for p in sorted(ENABLED)) + " " + " ".join("Pds.Tie." + p for p in sorted(ENABLED) if os.path.exists(os.path.join(ROOT, "lean/Pds/Tie", p + ".lean"))) + ") && (cd harness && cargo build --release --offline)",
         "hooks": {"guard": "pdatastructs_verif", "enable": "none needed: all observations go through the public API (no hooks in /repo)",
                   "baseline_off_cmd": "cd /repo && cargo test --workspace --no-fail-fast --offline", "source_commits": [], "add_only": True},
         "engines": [
